@@ -88,6 +88,37 @@ def roles(rep, ex: Explorer):
             elif on is False:
                 rep.check(name not in stored, "CNF.roles", site, f"{name} untouched", f"switch {flag} off ⇒ {name} is not written", extracted="written" if name in stored else "untouched", required="untouched", function=site)
     rep.floor("CNF.roles stores of belief_base_to_cnf", len(seen), 3)
+    # ---- the same call on a state whose slots hold whatever an earlier call left there (the base may have changed since: the
+    # same key may name another conditional by now): every conditional of the current base is translated anew
+    def setup_h(I):
+        s_, es = _mk(I)
+        eso = I.deref(es)
+        for nm in want:
+            r = eso.entries.get(nm)
+            if isinstance(r, Ref) and isinstance(I.deref(r), HDict):
+                I.deref(r).sym = ("left by an earlier call",)
+        return [s_, Const(True), Const(True), Const(True)], {}
+
+    n_h = 0
+    for p in ex.run(qual, setup_h, summaries=summ, key="cnfroles-history"):
+        if p.outcome[0] != "return":
+            continue
+        n_h += 1
+        slot_oids = set()
+        for oid, o in p.state.heap.items():
+            if isinstance(o, HDict) and "v_cnf_dict" in o.entries:
+                slot_oids |= {o.entries[nm].oid for nm in want if isinstance(o.entries.get(nm), Ref)}
+
+        def on_slot(k):
+            return isinstance(k, tuple) and len(k) == 3 and k[0] == "in" and isinstance(k[2], tuple) and k[2][:1] == ("dict",) and k[2][1] in slot_oids
+
+        stale = [(k, v) for k, v in p.decisions if on_slot(k)]
+        for ev, Q in iter_events(p.events):
+            if ev.kind == "dict.set" and Q:
+                stale += [(k, v) for k, v in Q[-1][1].guard if on_slot(k)]
+        rep.check(not stale, "CNF.roles", site, "slots after an earlier call", "every call translates every conditional of the current base anew, whatever the slots already hold under its key (it may belong to the conditional an earlier base had there)",
+                  extracted=("what is translated depends on " + "; ".join(sorted({show_pred(k)[:90] for k, _ in stale}))) if stale else "independent of earlier content", required="no dependence on what the slots already hold", function=site)
+    rep.floor("CNF.roles paths on a state left by an earlier call", n_h, 1)
     # every combination of the three switches, given as constants (the operators call it with (True, True, True) and
     # (False, True, True)): a slot is filled exactly when its own switch is on, whatever the others are
     from itertools import product
